@@ -266,6 +266,19 @@ Expand(s) ==
              \cup { AbsP(<<Dos, Step(ax, TypeT("node"), <<pr>>)>>) : ax \in {"child", "attribute"}, pr \in P }
              \cup { Fn1(f, AbsP(<<Dos, Step(ax, t, <<>>)>>)) : f \in {"name", "local-name", "namespace-uri", "count"},
                                                              ax \in {"child", "attribute"}, t \in T }
+             \* the namespace axis of ONE element at a time (namespace nodes have no identity across elements
+             \* through the public API, so node-sets of namespace nodes themselves are not compared)
+             \cup LET NT == { NameT("p"), NameT("q"), NameT("xml"), NameT("r"), AnyT, TypeT("node"), TypeT("text") }
+                      Nsx(t) == Rel(<<Step("namespace", t, <<>>)>>)
+                      One == { <<Ch("a")>>, <<Ch("a"), Ch("c")>>, <<Ch("a"), Ch("c"), Step("child", [k |-> "name", pre |-> Cp("q"), loc |-> Cp("b")], <<>>)>>,
+                               <<Ch("a"), Step("child", [k |-> "name", pre |-> Cp("p"), loc |-> Cp("b")], <<>>), Ch("b")>> }
+                  IN  { AbsP(<<Dos, Step("child", AnyT, <<Nsx(t)>>)>>) : t \in NT }
+                      \cup { AbsP(<<Dos, Step("child", AnyT, <<Bin("=", Nsx(t), [t |-> "str", v |-> Cp("u2")])>>)>>) : t \in NT }
+                      \cup { AbsP(<<Dos, Step("child", AnyT, <<Bin("=", Fn1("count", Nsx(AnyT)), NumL(k))>>)>>) : k \in 1..3 }
+                      \cup { Fn1(f, AbsP(o \o <<Step("namespace", t, <<>>)>>)) : f \in {"count", "string", "boolean"}, o \in One, t \in NT }
+                      \cup { Fn1(f, AbsP(o \o <<Step("namespace", NameT(n), <<>>)>>)) : f \in {"name", "local-name", "namespace-uri"}, o \in One, n \in {"p", "q", "xml"} }
+                      \cup { Fn1("count", AbsP(o \o <<Step("namespace", AnyT, <<>>), Step(ax, TypeT("node"), <<>>)>>)) :
+                               o \in One, ax \in {"child", "descendant", "attribute", "self", "following-sibling"} }
     [] s.fam = "kw" ->
          LET KwNames == {"order", "self", "text", "div", "selfish", "a-b", "or", "and", "mod", "textual", "andy", "orb", "comment", "node"}
              E(n) == AbsP(<<Dos, Ch(n)>>)
